@@ -60,6 +60,8 @@ func concPolicy(cfg string) PolicyCfg {
 		p.SharedIK, p.IKPol, p.IKCap = true, "lru", 1
 	case "shared-slru2":
 		p.SharedIK, p.IKPol, p.IKCap = true, "slru", 2
+	case "shared-simple":
+		p.SharedIK = true
 	case "sk-lru1":
 		p.SKPol, p.SKCap = "lru", 1
 	case "session-lru1":
@@ -464,7 +466,7 @@ func runConc(a *args) error {
 		return gen.WriteJSON(a.out, map[string]any{"cases": []*concCase{c}})
 	}
 	fams := map[string][]string{
-		"keycache":  {"shared-lru1", "shared-slru2", "sk-lru1", "session-lru1"},
+		"keycache":  {"shared-lru1", "shared-slru2", "sk-lru1", "session-lru1", "shared-simple"},
 		"sesscache": {"sesscache1", "sesscache2", "sesscache1-shared"},
 		"secret":    {"protectedmemory", "memguard"},
 		"reload":    {"default", "shared-ik", "one-session"},
